@@ -591,6 +591,15 @@ TRIVIA_PROGRAMS = (
 )
 
 
+# G-fstr: containers and operands inside f-string replacement fields (self-documenting '=' fields keep a copy of the expression text,
+# a leading '{' must not merge with the field's opening brace)
+FSTRING_PROGRAMS = (
+    'x = f"{[a, b, c]=}"', 'x = f"{a or b or c = }"', 'x = f"{fn(a, b, k=c)=!r:>30}"', 'x = f"{a, {b}, c}"', 'x = f"{ {a, b} }"', 'x = f"{d[a, b]}{(a, b)!r}"',
+    "x = f'{[i for i in (a, b, c)]=}'", 'x = f"{f(*[a, b], **{c: d})}"', 'x = f"""{[a,\n b]=}"""', 'x = f"{a:{[b, c][0]}}"', 'x = f"{a < b < c=}"',
+    'x = f"pre {a + b} mid {c.d(e, f)!s} post"', 'x = f"{f\'{[a, b]}\'}"', 'x = f"{(lambda p, q: p)(a, b)}"',
+)
+
+
 @functools.lru_cache(maxsize=None)
 def saturated_programs() -> tuple[str, ...]:
     """G-sat: small programs enumerating the optional parts of every compound construct (decorators x type parameters x bases /
